@@ -62,6 +62,9 @@ func ruleDequePopZero(c *Ctx, r *R) {
 				if _, f2, ok := storedField(x.Addr); ok && f2 == end && q == 1 {
 					return ss(3), true
 				}
+				if pp, ok := x.Addr.(*ssa.Parameter); ok && endSlotParams[pp] == end && q == 1 {
+					return ss(3), true
+				}
 			}
 			return 0, false
 		}
@@ -202,6 +205,11 @@ func isEndSlot(ia *ssa.IndexAddr, end string) bool {
 	if p, ok := resolveVal(ia.Index).(*ssa.Parameter); ok && endSlotParams[p] == end {
 		return true // the slot index handed to a shared helper (d.take(d.front))
 	}
+	if ld, ok := resolveVal(ia.Index).(*ssa.UnOp); ok && ld.Op == token.MUL {
+		if p, ok := ld.X.(*ssa.Parameter); ok && endSlotParams[p] == end {
+			return true // read through a pointer to the end's index field (d.popEnd(&d.front, 1): idx := *end)
+		}
+	}
 	return symOf(ia.Index, provEnv{}).fieldSuffix(end)
 }
 
@@ -224,6 +232,11 @@ func bindEndSlotParams(fn *ssa.Function, end string) func() {
 		o := origin(cal)
 		for i, a := range call.Call.Args {
 			if i < len(o.Params) && isIntType(a.Type()) && symOf(a, provEnv{}).fieldSuffix(end) {
+				endSlotParams[o.Params[i]] = end
+				bound = append(bound, o.Params[i])
+			}
+			// &d.<end>: the helper reads and moves the end through the pointer
+			if fa, ok := a.(*ssa.FieldAddr); ok && i < len(o.Params) && isNamedType(fa.X.Type(), "container/deque", "Deque") && fieldName(fa.X.Type(), fa.Field) == end {
 				endSlotParams[o.Params[i]] = end
 				bound = append(bound, o.Params[i])
 			}
@@ -291,6 +304,29 @@ func ruleDequeIndexDiscipline(c *Ctx, r *R) {
 						_, am := a.modLen("a")
 						if !(a.fieldSuffix("front") || a.fieldSuffix("back") || am) {
 							okIdx = false
+						}
+					}
+				}
+				if ld, isLd := resolveVal(x.Index).(*ssa.UnOp); isLd && ld.Op == token.MUL && !okIdx && fn.Parent() == nil && !token.IsExported(fn.Name()) {
+					// the index is read through a pointer parameter: every call site hands in &d.front or &d.back
+					if p, isP := ld.X.(*ssa.Parameter); isP {
+						pi := -1
+						for k2, pp := range fn.Params {
+							if pp == p {
+								pi = k2
+							}
+						}
+						sites := callSitesOf(c, fn)
+						okIdx = pi >= 0 && len(sites) > 0
+						for _, site := range sites {
+							var fa *ssa.FieldAddr
+							isFA := false
+							if pi < len(site.Call.Args) {
+								fa, isFA = site.Call.Args[pi].(*ssa.FieldAddr)
+							}
+							if !isFA || !isNamedType(fa.X.Type(), "container/deque", "Deque") || (fieldName(fa.X.Type(), fa.Field) != "front" && fieldName(fa.X.Type(), fa.Field) != "back") {
+								okIdx = false
+							}
 						}
 					}
 				}
@@ -496,29 +532,44 @@ func ruleDequeStepDirection(c *Ctx, r *R) {
 			continue
 		}
 		found, good := false, true
-		instrs(fn, func(b *ssa.BasicBlock, i int, in ssa.Instruction) {
-			st, ok := in.(*ssa.Store)
+		for _, di := range deepInstrs(fn, 2) { // the move may sit in a helper shared by both ends (d.popEnd(&d.front, 1))
+			if len(di.calls) > 0 {
+				if cal := staticCallee(&di.calls[0].Call); cal == nil || rootFn(origin(cal)).Pkg != fn.Pkg || fname(cal) == "resize" || fname(cal) == "maybeExpand" {
+					continue
+				}
+			}
+			st, ok := di.in.(*ssa.Store)
 			if !ok {
-				return
+				continue
 			}
-			if _, f, ok := storedField(st.Addr); !ok || f != spec[1] {
-				return
+			addr := argOf(st.Addr, di.calls)
+			if _, f, ok := storedField(addr); !ok || f != spec[1] {
+				continue
 			}
-			for _, e := range sxAlternatives(symOf(st.Val, provEnv{}), "a") {
+			for _, e := range sxAlternatives(symOf(st.Val, provEnv{chain: di.calls}), "a") {
 				inner, ok := e.modLen("a")
 				if !ok {
 					continue // constant / other-end assignment
 				}
 				found = true
-				if len(inner.args) != 2 || !inner.args[0].fieldSuffix(spec[1]) || !inner.args[1].isConst(1) {
+				if len(inner.args) != 2 || !inner.args[0].fieldSuffix(spec[1]) || !(inner.args[1].isConst(1) || inner.args[1].isConst(-1)) {
 					good = false
 					continue
 				}
-				if (spec[2] == "+" && inner.op != "+") || (spec[2] == "-" && inner.op != "-") {
+				// the signed step: x + 1, x - 1, or x + step with the helper's step parameter bound to +1 / -1 at the call
+				dir := inner.op
+				if inner.args[1].isConst(-1) {
+					if dir == "+" {
+						dir = "-"
+					} else if dir == "-" {
+						dir = "+"
+					}
+				}
+				if dir != spec[2] {
 					good = false
 				}
 			}
-		})
+		}
 		r.ok(found && good, "deque.Deque."+spec[0]+"|step", fn.Pos(), spec[0]+" must move "+spec[1]+" by "+spec[2]+"1 (the direction is fixed by what front/back and push/pop mean)")
 	}
 }
